@@ -31,6 +31,7 @@ def run(ctx):
             d = dict(c)
             d["rot"] = (i + ctx.seed + k * 5) % 18
             d["viafile"] = (i % 97 == 0 and k == 0)
+            d["uptype"] = (i % 4 == 1)
             allc.append(d)
     ctx.exhaustive = True
     ctx.evaluate(A.evaluate, allc, label="compose", chunk=100, key=lambda c: core._digest([c["obj"], c["rot"]]))
